@@ -16,7 +16,7 @@ for d in sorted(glob.glob(os.path.join(VERIF, 'seeded', '*', ''))):
     name = os.path.basename(d.rstrip('/'))
     m = json.load(open(os.path.join(d, 'meta.json')))
     det = [c for c, v in m.get('checks', {}).items() if v.get('detected')]
-    rnd = '3' if name.endswith('round3') else ('2' if name.endswith('round2') else '1')
+    rnd = name[-1] if name[:-1].endswith('round') else '1'
     first = m.get('detected_with_machinery_frozen')
     note = m.get('result', '')
     if m.get('superseded'):
